@@ -387,6 +387,50 @@ func stepDet(h, no, np int) {
 	}
 }
 
+// C07, independence from the process: the same message on the same chain state gives the same
+// result on a long-running node (whose keepers have served earlier transactions) and on a node
+// started afterwards - also when the module parameters were changed in between by a governance
+// proposal, which writes the parameter store directly and not through the keepers.
+func stepProc(h int) {
+	e := newEnv(1, 1)
+	e.seedDeployment(1, 1, 1, true)
+	if err := e.pk.Create(e.ctx, ptypes.Provider{Owner: addr(1), HostURI: "h"}); err != nil {
+		panic(err)
+	}
+	pre := e.snapshot()
+	for _, c := range e.invariant(pre, 1, 1, 1) {
+		verif_Assume(c.ok)
+	}
+	// the long-running node has already read its parameters while serving earlier transactions
+	_ = e.dk.GetParams(e.ctx)
+	_ = e.mk.GetParams(e.ctx)
+	dp := dtypes.Params{DeploymentMinDeposit: coin(amount("new-deployment-min-deposit"))}
+	e.dsub.SetParamSet(e.ctx, &dp)
+	mp := mtypes.Params{BidMinDeposit: coin(amount("new-bid-min-deposit")), OrderMaxBids: 20}
+	e.msub.SetParamSet(e.ctx, &mp)
+	_, _, exec := mkMsg(e, h)
+	base := e.ctx
+	bank0 := e.bank.clone()
+	e.ctx = verif_ForkContext(base).WithEventManager(sdk.NewEventManager())
+	err1 := exec(e.ctx)
+	post1, ev1 := e.snapshot(), e.ctx.EventManager().Events()
+	e.bank.restore(bank0)
+	e.wire() // a node started after the parameter change: fresh keepers over the same stores
+	e.ctx = verif_ForkContext(base).WithEventManager(sdk.NewEventManager())
+	err2 := exec(e.ctx)
+	post2, ev2 := e.snapshot(), e.ctx.EventManager().Events()
+	verif_Reach("executed-twice")
+	if err1 == nil {
+		verif_Reach("accepted")
+	}
+	verif_Assert((err1 == nil) == (err2 == nil), "C07 repeated execution gives the same result")
+	verif_Assert(sameState(post1, post2), "C07 repeated execution gives the same state")
+	verif_Assert(len(ev1) == len(ev2), "C07 repeated execution emits the same events")
+}
+
+func Harness_C07_proc_CreateDeployment() { stepProc(hCreateDeployment) }
+func Harness_C07_proc_CreateBid()        { stepProc(hCreateBid) }
+
 func sameEvent(a, b sdk.Event) bool {
 	if a.Type != b.Type || len(a.Attributes) != len(b.Attributes) {
 		return false
